@@ -837,7 +837,7 @@ pub fn main(args: &[String]) -> i32 {
             println!("ghosts {:?} accepted {}", o.out.app.ghosts, o.out.app.accepted);
             if rest.iter().any(|s| s == "--log") {
                 for r in &o.out.log {
-                    println!("  {:>10}us -> {:>10}us {} #{} len {} {} fate {} label {} known_id {} equiv {} first_flight {} {:?}", r.t_send_ns / 1000, r.t_deliver_ns / 1000, if r.dir == 0 { "c2s" } else { "s2c" }, r.ord, r.len, crate::link::kind_name(r.kind), r.fate, r.label, r.known_id, r.equiv, r.first_flight, r.note);
+                    println!("  {:>10}us -> {:>10}us {} #{} len {} {} fate {} label {} known_id {} equiv {} first_flight {} pn {:?} retx {} space {} {:?}", r.t_send_ns / 1000, r.t_deliver_ns / 1000, if r.dir == 0 { "c2s" } else { "s2c" }, r.ord, r.len, crate::link::kind_name(r.kind), r.fate, r.label, r.known_id, r.equiv, r.first_flight, r.pkt.map(|p| (p.f[1], p.f[2], p.f[3])), r.retx, r.space, r.note);
                 }
             }
             println!("nontrivial {} hash {:016x}", o.summary.nontrivial, o.summary.hash);
@@ -849,8 +849,21 @@ pub fn main(args: &[String]) -> i32 {
             }
             println!("heap_overruns {:?} max datagram {:?}", o.out.heap_overruns, o.out.stats.max_len);
             println!("rejects: control_seen {} control_unauthenticated {} stream {}", o.out.app.rejects.control_seen, o.out.app.rejects.control.len(), o.out.app.rejects.stream.len());
-            for (e, pk) in o.out.app.rejects.stream.iter().take(6) {
+            for (e, pk) in o.out.app.rejects.stream.iter().take(std::env::var("VERIF_REJECTS").ok().and_then(|s| s.parse().ok()).unwrap_or(6usize)) {
                 println!("  stream reject: {e} :: {pk}");
+            }
+            println!("  acked identities: {}", o.out.app.rejects.acked.len());
+            if let Ok(f) = std::env::var("VERIF_PASSES_PN") {
+                for k in o.out.app.rejects.acked.iter().filter(|k| k.0.to_string() == f) {
+                    println!("  acked {k:?}");
+                }
+            }
+            let multi = o.out.app.rejects.passes.iter().filter(|(_, n)| **n > 1).count();
+            println!("  stream processing passes: {} identities, {} processed more than once", o.out.app.rejects.passes.len(), multi);
+            if let Ok(f) = std::env::var("VERIF_PASSES_PN") {
+                for (k, n) in o.out.app.rejects.passes.iter().filter(|(k, _)| k.1.to_string() == f) {
+                    println!("  passes {k:?} = {n}");
+                }
             }
             for c in o.out.app.rejects.control.iter().take(6) {
                 println!("  control reject: {c:?}");
